@@ -80,6 +80,9 @@ class World:
                 return None
             lst = [x % nv for x in (i, j, k)][: k % 4]
             return ("newu", lst, (k // 4) % 3)
+        if name == "adj":
+            # adjacency builders used as mutators of EXISTING vertices: k bit0 -> matrix form
+            return ("adj", i % nv, j % nv, (k >> 1) % 6, k & 1)
         if name in ("flag", "query", "repickle"):
             return (name, k)
         raise ValueError(f"unknown op {name}")
@@ -121,6 +124,22 @@ class World:
             return out
         if name == "unlink":
             return explicit.unlink(self.vs[r[1]], self.vs[r[2]], destroy=r[3])
+        if name == "adj":
+            from edgegraph.builder import adjlist, adjmatrix
+
+            _, a, b, ci, matrix = r
+            before = {id(l) for v in self.vs for l in v.links}
+            if matrix:
+                side = [self.vs[a]] if a == b else [self.vs[a], self.vs[b]]
+                cells = [[1]] if a == b else [[0, 1], [1, 0]]
+                out = adjmatrix.load_adj_matrix(cells, side, C.LINK_CLASSES[ci])
+            else:
+                out = adjlist.load_adj_dict({self.vs[a]: [self.vs[b], self.vs[a]]}, C.LINK_CLASSES[ci])
+            for v in (self.vs[a], self.vs[b]):
+                for l in v.links:
+                    if id(l) not in before and all(l is not x for x in self.ls):
+                        self.ls.append(l)
+            return out
         if name == "al":
             return self.vs[r[2]].add_to_link(self.ls[r[1]])
         if name == "rl":
